@@ -363,7 +363,12 @@ func (x *c17) spawn(gomaxprocs int, timeout time.Duration, args ...string) procO
 	rl := filepath.Join(x.raceDir, "r")
 	cmd.Env = append(os.Environ(), fmt.Sprintf("GOMAXPROCS=%d", gomaxprocs),
 		"GORACE=log_path="+rl+" halt_on_error=0 history_size=4 atexit_sleep_ms=0", "VERIF_RACE_LOG="+rl, "GOTRACEBACK=single")
-	var so, se bytes.Buffer
+	// The watchdog is about progress, not duration: a worker is killed when it
+	// has written nothing for `timeout` (every run writes a line when it starts
+	// and when it ends), however long the whole batch takes on a busy machine.
+	var so progressBuf
+	var se bytes.Buffer
+	so.touch()
 	cmd.Stdout = &so
 	cmd.Stderr = &se
 	var po procOut
@@ -374,22 +379,31 @@ func (x *c17) spawn(gomaxprocs int, timeout time.Duration, args ...string) procO
 	}
 	done := make(chan error, 1)
 	go func() { done <- cmd.Wait() }()
-	select {
-	case err := <-done:
-		if err != nil {
-			if ee, ok := err.(*exec.ExitError); ok {
-				po.exit = ee.ExitCode()
-			} else {
-				po.exit = -1
+	tick := time.NewTicker(2 * time.Second)
+	defer tick.Stop()
+wait:
+	for {
+		select {
+		case err := <-done:
+			if err != nil {
+				if ee, ok := err.(*exec.ExitError); ok {
+					po.exit = ee.ExitCode()
+				} else {
+					po.exit = -1
+				}
+			}
+			break wait
+		case <-tick.C:
+			if so.idle() > timeout {
+				cmd.Process.Kill()
+				<-done
+				po.timed = true
+				po.exit = -2
+				break wait
 			}
 		}
-	case <-time.After(timeout):
-		cmd.Process.Kill()
-		<-done
-		po.timed = true
-		po.exit = -2
 	}
-	sc := bufio.NewScanner(&so)
+	sc := bufio.NewScanner(bytes.NewReader(so.bytes()))
 	sc.Buffer(make([]byte, 1<<20), 1<<28)
 	for sc.Scan() {
 		var l lineM
@@ -404,6 +418,31 @@ func (x *c17) spawn(gomaxprocs int, timeout time.Duration, args ...string) procO
 		os.Remove(rp)
 	}
 	return po
+}
+
+// progressBuf collects a worker's stdout and remembers when it last grew.
+type progressBuf struct {
+	mu   sync.Mutex
+	buf  bytes.Buffer
+	last time.Time
+}
+
+func (p *progressBuf) Write(b []byte) (int, error) {
+	p.mu.Lock()
+	defer p.mu.Unlock()
+	p.last = time.Now()
+	return p.buf.Write(b)
+}
+func (p *progressBuf) touch() { p.mu.Lock(); p.last = time.Now(); p.mu.Unlock() }
+func (p *progressBuf) idle() time.Duration {
+	p.mu.Lock()
+	defer p.mu.Unlock()
+	return time.Since(p.last)
+}
+func (p *progressBuf) bytes() []byte {
+	p.mu.Lock()
+	defer p.mu.Unlock()
+	return append([]byte(nil), p.buf.Bytes()...)
 }
 
 func tail(s string, n int) string {
